@@ -22,6 +22,7 @@ claims = {
  "C19": ("proof", "TTL bounds outside 1..255 and inverted bounds rejected (after the fix), port range, protocol and TCP method dispatch, HTTP parameter parsing verbatim with exact defaults, engines cover exactly first..last TTL, SACK table sized for the extreme 255, no-panic obligations along the chain. DNS resolution of non-literal targets is external.", "§6 C19"),
  "C20": ("proof", "performTCPFallback with the three implementations as abstract function values and call counters: which are called, how often, whose result is returned, that a non-capability SACK failure is returned wrapped and never masked; end-to-end probes force SYN; the only non-retryable receive error of the SACK driver is NotSupportedError for an ACK without SACK blocks on the probed connection. Entry-point provenance of NotSupportedError (dial / handshake) is not yet under contract.", "§6 C20"),
  "C10": ("proof", "Handle typestate as ghost state (isOpen / closeN per OS-backed handle): every constructor (net.Dial, net.Listen, Dialer.DialContext, NewSourceSink on top of the two trusted socket constructors) opens, every Close requires the handle to be open (double close or close of a never-opened handle fails the Close precondition) and every Read/Write/SetPacketFilter/SetReadDeadline requires it open (use after close). Each protocol entry point (ICMP, UDP, TCP SYN, SACK, and runTracerouteOnce / runE2eProbeOnce above them) has the postconditions: error implies no result; every handle not open before the call is not open after it (all handles opened are closed, on every success and failure path, for every injection point because constructor/IO results are unconstrained); handles open before are untouched; handles are open at the engine call. Engines: error implies nil result; every goroutine spawned is joined on every path to a return (goroutine.joined). Cause preservation is proved where the statement is checkable on one call: SACK error class is preserved through every wrapping layer (C20.sack.*), send/receive errors carry no foreign repo error types. Not covered: that the *text* of the underlying cause survives (fmt verbs other than %w are not interpreted beyond the chain relation); Windows-only paths (MustClosePort double close of the reserved port is outside the linux build that is verified).", "§6 C10"),
+ "C15": ("proof", "runTracerouteMulti and its three goroutine bodies under a monitor with auxiliary counters owned by the mutex: every run goroutine appends exactly one run or exactly one error, every probe goroutine appends exactly one RTT sample (0 when it failed) plus its error, the public-IP goroutine touches neither (it does not even capture the error list); each is a guarantee proved at the Unlock relative to the state at Lock, so it holds for every interleaving and completion order. The monitor invariant (len(runs)+runFails == runsDone, len(samples) == e2eDone, len(errors) == runFails+e2eFails, all errors non-nil) is proved at every Unlock and before the first spawn; at wg.Wait() the counters equal the number of goroutines started (each closure is proved to contribute exactly once). Postconditions: error implies no result; success implies exactly TracerouteQueries runs and E2eQueries samples and zero failures; an error is returned iff at least one goroutine failed and it wraps every collected failure; goroutines are joined on every path. Trusted: WaitGroup Add/Done/Wait protocol (A-JOIN), errors.Join membership. Not covered by a machine-checked contract: the thin wrapper RunTraceroute (propagates the error, then calls Normalize / RemovePrivateHops / EnrichWithReverseDns whose own contracts are C16/C17/C18).", "§6 C15"),
  "C17": ("proof", "RemovePrivateHops postconditions over the whole document against an independent range predicate, with net.IP.IsPrivate / To4 / isZeros executed from the toolchain's source; flag plumbing in the HTTP parameter parser.", "§6 C17"),
 }
 
@@ -29,7 +30,7 @@ not_applicable = {
  "C13": "statement is about what Linux kernel routers, sockets and BPF attach do on a real path; no pre/postcondition on Go source can decide it, and the syscall layer is exactly what the library specifications assume",
 }
 
-pending = ["C08","C14","C15","C18"]
+pending = ["C08","C14","C18"]
 
 def main():
     checks=[]
